@@ -440,16 +440,17 @@ func allPhases(thorough bool) []phase {
 		seedPhase("seeds/console", drvRepl),
 		seqPhase("sequences<=3/server", drvSrv, 3, both),
 		seqPhaseOver("sequences=4-core-alphabet/server", drvSrv, coreAlphabet, 4, 4, both),
-		seqPhaseOver("sequences=4-core-alphabet/file", drvRun, coreAlphabet, 4, 4, []int{formInMain}),
-		seqPhase("sequences<=3/file", drvRun, 3, both),
-		seqPhase("sequences<=3/pipe", drvPipe, 3, []int{formFragment}),
-		seqPhase("sequences<=3/console", drvRepl, 3, console),
+		seqPhase("sequences<=2/file", drvRun, 2, both),
+		seqPhase("sequences<=2/pipe", drvPipe, 2, both),
+		seqPhase("sequences<=2/console", drvRepl, 2, console),
+		seqPhaseOver("sequences=3-core-alphabet/file", drvRun, coreAlphabet, 3, 3, both),
+		seqPhaseOver("sequences=3-core-alphabet/pipe", drvPipe, coreAlphabet, 3, 3, []int{formFragment}),
+		seqPhaseOver("sequences=3-core-alphabet/console", drvRepl, coreAlphabet, 3, 3, console),
 		editPhase("edits1/server", drvSrv, allTokens()),
-		editPhase("edits1/file", drvRun, allTokens()),
-		editPhase("edits1/pipe", drvPipe, allTokens()),
-		editPhase("edits1/console", drvRepl, allTokens()),
+		editPhase("edits1-no-fmt-substitution/file", drvRun, quickSubs()),
+		editPhase("edits1-no-fmt-substitution/pipe", drvPipe, quickSubs()),
+		editPhase("edits1-no-fmt-substitution/console", drvRepl, quickSubs()),
 		pairPhase("edits2-structural/server", drvSrv, nil, 0),
 		pairPhase("edits2-local/server", drvSrv, quickSubs(), 3),
-		pairPhase("edits2-structural/file", drvRun, nil, 0),
 	}
 }
